@@ -674,3 +674,11 @@ class AsynchronousShape(DecoratorShape):
 
 
 CONTRACTS = CONTRACTS + [AsynchronousShape()]
+
+
+def extra_contracts():
+    """`traced` wraps every call in `ctx.scope(name)` and treats entering / leaving it as steps that never raise - also when the
+    traced function runs in a task that outlived the scope it was started in (the new scope is then made under a completed
+    one): the completion protocol of C09, re-checked here."""
+    from .C02 import _metrics_exit_never_raises
+    return _metrics_exit_never_raises("C18")
